@@ -64,11 +64,17 @@ def points(rnd, lo, hi, n, logscale=True):
     return [rnd.uniform(lo, hi) for _ in range(n)]
 
 
-def classify(ir, name, params, attrs, method, kind, x, exc, what, origin=None):
+def classify(ir, name, params, attrs, method, kind, x, exc, what, origin=None, result=None):
     cls = ir[name]
+    # C10-F6 in all its guises: Virial.loading (Nelder-Mead started at the pressure value) reports success at a NEGATIVE loading
+    if name == 'Virial' and exc is None and ((method == 'loading' and result is not None and result < 0) or (method == 'pressure' and what == 'roundtrip' and x < 0)):
+        return 'C10:Virial-loading-start-far-from-root'
     if exc == 'ValueError' and cls['methods'][method]['kind'] == 'fun' and cls['methods'][method].get('nan_guard') \
             and kind in ('pyfloat', 'npfloat', '0d') and fl.nan_branch_hit(cls, method, params, attrs, float(x)):
         return 'C10:nan_to_num-copy-False-on-scalar'
+    # C10-F8: the VST pressure equation has further pre-images OUTSIDE [0, n_m]; the root finder may land on one
+    if name in ('WVST', 'FHVST') and method == 'loading' and exc is None and what in ('roundtrip', 'root-certificate'):
+        return 'C10:VST-loading-root-finder-reports-success-at-a-wrong-root'
     if name == 'Virial' and method == 'loading' and kind == '1dN' and exc == 'ValueError':
         return 'C10:Virial-loading-array-input'
     if name == 'Virial' and method == 'loading' and exc is None and origin and x > 3 * origin:
@@ -169,7 +175,7 @@ def explore(rep, tier, seed):
                             cert_bad += 1
                             if cert_bad <= 5:
                                 origin = n if (not explicit_is_loading and method == 'loading') else None
-                                rep.failure(classify(ir, name, params, attrs, method, 'pyfloat', x, None, 'root-certificate', origin),
+                                rep.failure(classify(ir, name, params, attrs, method, 'pyfloat', x, None, 'root-certificate', origin, result=root),
                                             '%s.%s(%r) reported success with %r but %s(root) = %r' % (name, method, x, root, mk['of'], back),
                                             {'model': name, 'params': params, 'attrs': attrs, 'method': method, 'kind': 'pyfloat', 'x': [x]})
         n_ok, failed = (0, [])
@@ -211,6 +217,16 @@ def explore(rep, tier, seed):
             return
         bv = flat(back)
         used = xs if kind == '1dN' else xs[:1]
+        # where the first function is undefined at x (nan/inf: outside the model's validity range) the element is not judged
+        yv0 = flat(y)
+        # ... and where it underflows to exactly 0 for x != 0 (binary64 underflow of exp(-large): the information is gone; the value
+        # itself is still validated against the generated formula in the translator-validation part)
+        finite = [i for i in range(min(len(yv0), len(used))) if yv0[i] == yv0[i] and abs(yv0[i]) != float('inf') and not (yv0[i] == 0 and used[i] != 0)]
+        if len(yv0) == len(used) and len(bv) == len(used) and len(finite) < len(used):
+            if not finite:
+                return
+            bv = [bv[i] for i in finite]
+            used = [used[i] for i in finite]
         ok = len(bv) == len(used) and all((b == b) and abs(b - x) <= rtol * abs(x) + 1e-12 * (1 if x else 0) + (1e-9 if x == 0 else 0) for b, x in zip(bv, used))
         bump('roundtrip:%s:%s' % (kind, 'ok' if ok else 'FAIL'))
         if ok:
@@ -219,7 +235,7 @@ def explore(rep, tier, seed):
         else:
             worst = max(range(len(used)), key=lambda i: abs(bv[i] - used[i]) if i < len(bv) and bv[i] == bv[i] else 1e300) if len(bv) == len(used) else 0
             tag = classify(ir, name, params, attrs, second_name, kind, flat(y)[worst if kind == '1dN' else 0], None, 'roundtrip',
-                           used[worst]) if ir else 'C10:unclassified:roundtrip'
+                           used[worst], result=(bv[worst] if worst < len(bv) else None)) if ir else 'C10:unclassified:roundtrip'
             rep.failure(tag, '%s: %s(%s(x)) != x for x=%r [%s]: got %r (params %r)' % (name, second_name, first_name, used, kind, bv, params), replay)
 
     names = sorted(SPECS)
@@ -347,14 +363,16 @@ def model_isotherm_wrappers(rep, rnd, n):
             iso = pygaps.ModelIsotherm(model=m, material=mat, adsorbate=key, temperature=77.355, pressure_mode='absolute', pressure_unit='bar',
                                        loading_basis='molar', loading_unit='mmol', material_basis='mass', material_unit='g')
             ads = iso.adsorbate
-            pu, lu, mu = rnd.choice(['kPa', 'torr', 'bar']), rnd.choice(['mol', 'mmol']), rnd.choice(['kg', 'g'])
+            pu, mu = rnd.choice(['kPa', 'torr', 'bar']), rnd.choice(['kg', 'g'])
+            # requested loading representation: also other bases, incl. the dimensionless ones, which depend on the REQUESTED material unit
+            lb, lu = rnd.choice([('molar', 'mol'), ('molar', 'mmol'), ('mass', 'mg'), ('percent', None), ('fraction', None), ('percent', None)])
             if m.calculates == 'loading':
                 lo, hi = sp.prange(params)
                 p = np.array(sorted(points(rnd, lo, hi, 3)))
                 p_user = c_pressure(p, 'absolute', 'absolute', 'bar', pu, ads, 77.355)
-                got = iso.loading_at(p_user, pressure_unit=pu, loading_unit=lu, material_unit=mu)
+                got = iso.loading_at(p_user, pressure_unit=pu, loading_basis=lb, loading_unit=lu, material_unit=mu)
                 want = c_loading(c_material(m.loading(c_pressure(p_user, 'absolute', 'absolute', pu, 'bar', ads, 77.355)), 'mass', 'mass', 'g', mu, mat),
-                                 'molar', 'molar', 'mmol', lu, ads, 77.355, 'mass', mu)
+                                 'molar', lb, 'mmol', lu, ads, 77.355, 'mass', mu)
                 rel = iso.loading_at(p_user / c_pressure(ads.saturation_pressure(77.355), 'absolute', 'absolute', 'Pa', pu, ads, 77.355), pressure_mode='relative')
                 ok = np.allclose(got, want, rtol=1e-10) and np.allclose(rel, m.loading(p), rtol=1e-9)
             else:
@@ -367,7 +385,7 @@ def model_isotherm_wrappers(rep, rnd, n):
             if not ok:
                 bad += 1
                 rep.failure('C10:unclassified:ModelIsotherm-wrapper:%s' % name, 'ModelIsotherm accessor differs from conversion around the bare %s model: %r vs %r' % (name, got, want),
-                            {'model': name, 'params': params, 'attrs': attrs, 'method': 'wrapper', 'kind': '1dN', 'x': [], 'units': [pu, lu, mu]})
+                            {'model': name, 'params': params, 'attrs': attrs, 'method': 'wrapper', 'kind': '1dN', 'x': [], 'units': [pu, lb, lu, mu]})
     return count, bad
 
 
